@@ -3,6 +3,7 @@ package rules
 import (
 	"fmt"
 	"go/ast"
+	"go/constant"
 	"go/token"
 	"go/types"
 	"strings"
@@ -89,8 +90,19 @@ func (e *Env) RWho() {
 		load.PkgDecorator + ".(*Package).SaveWithResolver": true,
 	}
 	nAllowed := 0
+	writerHelpers := map[string]bool{}
+	// a helper of the package that replaces the file like os.WriteFile does (truncatingWriter) may
+	// open, write, sync and close
+	for _, fd := range load.AllFuncDecls(e.Prog.Pkg(load.PkgDecorator)) {
+		if fn, ok := e.Prog.Pkg(load.PkgDecorator).TypesInfo.Defs[fd.Name].(*types.Func); ok && e.truncatingWriter(fn) {
+			writerHelpers[load.PkgDecorator+"."+load.FuncName(fd)] = true
+		}
+	}
 	for _, s := range sites {
 		ok := allowedFn[s.fn] && (s.key == "io/ioutil.WriteFile" || s.key == "os.WriteFile")
+		if writerHelpers[s.fn] && (s.key == "os.OpenFile" || strings.HasPrefix(s.key, "(*os.File).")) {
+			ok = true
+		}
 		if ok {
 			nAllowed++
 		}
@@ -145,6 +157,11 @@ func (e *Env) C20Save() {
 			if se, ok := call.Args[1].(*ast.SelectorExpr); ok {
 				if fn, ok := info.Uses[se.Sel].(*types.Func); ok {
 					bound = funcKey(fn)
+				}
+			}
+			if id, ok := call.Args[1].(*ast.Ident); ok {
+				if fn, ok := info.Uses[id].(*types.Func); ok && e.truncatingWriter(fn) {
+					bound = "os.WriteFile" // a helper of this package that does what os.WriteFile does
 				}
 			}
 			e.Run.Check("R-SAVE", "save called from "+load.FuncName(f)+" with the real file writer", e.Prog.Pos(call.Pos()), bound == "io/ioutil.WriteFile" || bound == "os.WriteFile",
@@ -319,6 +336,16 @@ func (e *Env) C20Save() {
 			if id, ok := as.Lhs[0].(*ast.Ident); ok && info.Defs[id] == bufObj {
 				if _, isAlloc := c.AllocOf(as.Rhs[0]); isAlloc {
 					bufIdx = i
+				}
+			}
+		}
+		if es, ok := s.(*ast.ExprStmt); ok {
+			// buf.Reset(): a buffer that lives across the iterations is emptied for this one
+			if call, ok := es.X.(*ast.CallExpr); ok && len(call.Args) == 0 {
+				if se, ok := call.Fun.(*ast.SelectorExpr); ok && se.Sel.Name == "Reset" && isBuf(se.X) {
+					if fn := c.Callee(call); fn != nil && funcKey(fn) == "(*bytes.Buffer).Reset" {
+						bufIdx = i
+					}
 				}
 			}
 		}
@@ -771,4 +798,65 @@ func (e *Env) calledOnlyFrom(pkg *packages.Package, f *ast.FuncDecl, caller stri
 		})
 	}
 	return ok && n >= 1
+}
+
+// truncatingWriter: fn is a function of the decorator package with the signature of os.WriteFile
+// that opens the named file with os.OpenFile(name, O_WRONLY|O_CREATE|O_TRUNC, perm) — exactly those
+// flags, by constant value —, writes the data to it and closes it: what os.WriteFile does. Without
+// O_TRUNC a shorter print would leave the tail of the old contents in the file.
+func (e *Env) truncatingWriter(fn *types.Func) bool {
+	pkg := e.Prog.Pkg(load.PkgDecorator)
+	info := pkg.TypesInfo
+	if fn == nil || fn.Pkg() != pkg.Types {
+		return false
+	}
+	sig, ok := fn.Type().(*types.Signature)
+	if !ok || sig.Recv() != nil || sig.Params().Len() != 3 || sig.Results().Len() != 1 {
+		return false
+	}
+	var fd *ast.FuncDecl
+	for _, d := range load.AllFuncDecls(pkg) {
+		if info.Defs[d.Name] == types.Object(fn) {
+			fd = d
+		}
+	}
+	osPkg := e.Prog.All["os"]
+	if fd == nil || fd.Body == nil || osPkg == nil {
+		return false
+	}
+	want := int64(0)
+	for _, nm := range []string{"O_WRONLY", "O_CREATE", "O_TRUNC"} {
+		cst, ok := osPkg.Types.Scope().Lookup(nm).(*types.Const)
+		if !ok {
+			return false
+		}
+		v, ok := constant.Int64Val(cst.Val())
+		if !ok {
+			return false
+		}
+		want |= v
+	}
+	opens, writes, closes := false, false, false
+	ast.Inspect(fd.Body, func(n ast.Node) bool {
+		call, ok := n.(*ast.CallExpr)
+		if !ok {
+			return true
+		}
+		switch k := funcKey(calleeFunc(info, call)); k {
+		case "os.OpenFile":
+			if len(call.Args) == 3 {
+				if tv, ok := info.Types[call.Args[1]]; ok && tv.Value != nil {
+					if v, ok := constant.Int64Val(tv.Value); ok && v == want {
+						opens = true
+					}
+				}
+			}
+		case "(*os.File).Write":
+			writes = true
+		case "(*os.File).Close":
+			closes = true
+		}
+		return true
+	})
+	return opens && writes && closes
 }
